@@ -437,8 +437,7 @@ def chain_term(svcs, c, client, target, claimed, records):
     return "CaseChain %s %s" % (i, o)
 
 
-KNOWN_IDS = {1: "C19-F1-head-error-page-length", 2: "C19-F2-server-generated-header-not-logged",
-             3: "C19-F3-buffered-early-hints-status"}
+KNOWN_IDS = {1: "C19-F1-head-error-page-length", 2: "C19-F2-server-generated-header-not-logged"}
 FILES = ["common_test.go", "assets_test.go", "c19_test.go"]
 IMPORTS = ("From KP Require Import model.Base model.Url model.ServiceMap model.Headers model.Buffer model.ProxyError "
            "model.ErrorPage model.Logging corr.C19corr.\nLocal Open Scope N_scope.")
